@@ -8,7 +8,7 @@ From SV Require Export Port.PortCases.
 Definition init_snap (c : pcase) : snapshot :=
   match init (pc_setup c) with
   | Ok (i, _) => snapshot_of i
-  | Panic _ => mkSnap [] (i_ds (new_instance (su_config (pc_setup c)) (su_tp (pc_setup c)))) []
+  | Panic _ => mkSnap [] (i_ds (new_instance (su_config (pc_setup c)) (su_tp (pc_setup c)))) [] []
   end.
 
 Definition own_clock (c : pcase) : Z := ic_clock_identity (su_config (pc_setup c)).
